@@ -23,7 +23,7 @@ ASSUMPTIONS = [
     "retained results are counted by reading the wrapper's per-loop OrderedDict (entries whose lock slot is None)",
     "integer virtual-clock ticks; ttl in ticks",
 ]
-OUTSIDE = ["more than 4 concurrent callers / 5 sequential calls", "keyword arguments, methods (descriptor path)", "uvloop, trio"]
+OUTSIDE = ["more than 4 concurrent callers / 5 sequential calls", "methods (descriptor path)", "uvloop, trio"]
 MUST_REACH = ["conc:full-while-in-flight", "conc:waiter-reuses-result", "conc:failed-flight-with-waiter", "conc:caller-cancelled-in-flight",
               "seq:eviction", "seq:ttl-expired", "seq:hit"]
 
@@ -159,7 +159,7 @@ def _conc_impl(sym, cov, keys, maxsize, eager=False, always_checkpoint=False, ca
     chk(info.hits + info.misses >= len(ok_calls), "hits+misses<completed-calls", {"info": list(info)})
 
 
-def seq(sym, cov, ncalls, with_ttl, typed=False, floats=False, K=2, G=3, M=3):
+def seq(sym, cov, ncalls, with_ttl, typed=False, floats=False, K=2, G=3, M=3, kw=False):
     """One task, a sequence of calls: exact reference model (LRU with ttl)."""
     import anyio
     from anyio.functools import lru_cache
@@ -189,7 +189,7 @@ def seq(sym, cov, ncalls, with_ttl, typed=False, floats=False, K=2, G=3, M=3):
             arg = float(keys[i]) if asfloat[i] else keys[i]
             t = loop.time()
             before = nexec[0]
-            r = await f(arg)
+            r = await (f(k=arg) if kw else f(arg))
             out.append({"key": keys[i], "fl": asfloat[i], "t": t, "executed": nexec[0] > before, "res": r, "t_end": loop.time()})
         final["info"] = f.cache_info()
         final["retained"] = _retained(f)
@@ -289,6 +289,7 @@ def units(tier):
         us.append({"name": "seq n=4", "fn": seq, "params": {"ncalls": 4, "with_ttl": False}, "budget_s": 100})
         us.append({"name": "seq n=3 ttl", "fn": seq, "params": {"ncalls": 3, "with_ttl": True, "K": 1, "G": 2, "M": 2}, "budget_s": 100})
         us.append({"name": "seq n=2 typed", "fn": seq, "params": {"ncalls": 2, "with_ttl": False, "typed": True, "floats": True, "K": 1, "M": 2}, "budget_s": 100})
+        us.append({"name": "seq n=2 typed kwargs", "fn": seq, "params": {"ncalls": 2, "with_ttl": False, "typed": True, "floats": True, "K": 1, "M": 2, "kw": True}, "budget_s": 100})
         us.append({"name": "seq n=2 untyped-floats", "fn": seq, "params": {"ncalls": 2, "with_ttl": False, "typed": False, "floats": True, "K": 1, "M": 2}, "budget_s": 100})
     else:
         us.append({"name": "seq n=5", "fn": seq, "params": {"ncalls": 5, "with_ttl": False}, "budget_s": 1500})
